@@ -8,6 +8,7 @@ from sa.model import AnalysisError, Unknown, norm, unwrap, Obj, EnumMember
 from sa.query import Facts, call_name, find_calls, defs_of, try_fold, calls_in
 from sa.exc import ExcAnalysis
 from sa.decide import Walker
+from .c06 import _strip
 from .common import (dongle_classes, protocol_classes, is_dongle_call, firmware,
                      manager_reachable, send_sites, name_defined_only_by, is_method_call_on)
 
@@ -154,6 +155,7 @@ def run(run):
     _check_serving(run, F, L, hb, init, gb, gi, unlock_sites, hb_calls[0])
 
     # ------------------------------------------------------------------ R4
+    _device_reports(run)
     _check_version_relation(run, L)
     _check_constants(run, L)
 
@@ -446,6 +448,35 @@ def _check_serving(run, F, L, hb, init, gb, gi, unlock_sites, hb_call):
               "failed bring-up leaves through HSM2ProtocolError / HSM2ProtocolInterrupt",
               key="initialize_device|escape-classes", where=init.loc(),
               message=f"unexpected escape set of initialize_device: {sorted(esc)}")
+
+
+def _device_reports(run):
+    """The mode / onboarded flag / versions the bring-up decides on are what the device reported, for every dongle class (Ledger, TCP, SGX)."""
+    P, A = run.P, run.A
+    from sa.decide import return_values
+    from sa.prov import Prov
+    PVd = Prov(A)
+    base = P.cls("ledger.hsm2dongle.HSM2Dongle")
+    want = {
+        "get_current_mode": {"self.MODE(self._send_command(self.CMD.GET_MODE)[1])"},
+    }
+    for dc in dongle_classes(run):
+        for mname, wv in want.items():
+            r_ = dc.lookup(mname)
+            run.require(r_ is not None and r_[1] == "method", f"{dc.name}.{mname} vanished")
+            m = r_[2]
+            own = r_[0]
+            rv = {_strip(x) for x in return_values(A, m, dc, PVd)}
+            run.check("R3", rv == {_strip(w) for w in wv}, f"{dc.name}.{mname} reports the device's own answer", key=f"{dc.name}.{mname}|source", where=m.loc(),
+                      message=f"{dc.name}.{mname} (defined in {own.name}) returns {sorted(rv)[:3]}; expected the mode byte of a fresh GET_MODE answer (UNKNOWN only "
+                              "when the exchange fails): a mode the device did not report would let the bring-up unlock / serve in a state it must stop in")
+            if mname == "get_current_mode":
+                hs = [h for n in A.own_nodes(m) if isinstance(n, ast.Try) for h in n.handlers]
+                okh = all(norm(h.type) in ("HSM2DongleError",) for h in hs if h.type is not None) and all(h.type is not None for h in hs) \
+                    and all(isinstance(x, ast.Return) and x.value is not None and norm(x.value) == "self.MODE.UNKNOWN" for h in hs for x in ast.walk(h)
+                            if isinstance(x, (ast.Return, ast.Raise)))
+                run.check("R3", okh, f"{dc.name}.{mname}: UNKNOWN only for a failed exchange", key=f"{dc.name}.{mname}|handlers", where=m.loc(),
+                          message=f"{dc.name}.{mname} maps {[norm(h.type) if h.type is not None else 'any exception' for h in hs]} to a mode")
 
 
 def _check_version_relation(run, L):
